@@ -8,9 +8,10 @@ from . import c10 as S
 PROP = "C11"
 COQ_EXTRA = ["theories/Model/ScalarsCases.vo", "theories/Gen/ScalarsGen.vo"]
 PARTIAL = [
-    "the instance-level theorem to_etree_leaves_lexical (every leaf of instance.to_etree()) belongs to the schema engine; this property's obligations are the per-type "
-    "unconvert_lexical theorems it instantiates, plus the datum-level wire theorems; instances are covered here by evaluation of the implementation only",
-    "date-time and time texts: the lexical rule is checked on the implementation's DateTime/Time.unconvert output by the harness; the theorem about format_datetime is the C09 engine's",
+    "the instance-level theorems to_etree_leaves_lexical / to_etree_leaves_lexical_utc (every leaf of instance.to_etree(), proved over the schema engine's typed model) instantiate the "
+    "per-type unconvert_lexical theorems; the implementation's instances are covered by evaluation (the typed model itself is run against the implementation by C01's check)",
+    "date-time and time texts: to_etree_leaves_lexical_utc proves the notation YYYYMMDDHHMMSS.XXX[+0:UTC] / HHMMSS.XXX[+0:UTC] for the C09 engine's writer on UTC values (years 1000..9998); "
+    "for values in other zones the lexical rule is checked on the implementation's DateTime/Time.unconvert output by the harness and dt_unconvert_shape / tm_unconvert_shape are C09's theorems",
     "the wire theorems are about one datum as code points (what _escape_cdata / saxutils.escape return); UTF-8 encoding and the tag framing are validated by the correspondence run",
     "ET's _serialize_html writes the text of <script>/<style> elements unescaped: no OFX tag is named so",
 ]
